@@ -411,16 +411,35 @@ def run_shard(shard, out_base):
     if shard["kind"] == "retry":
         run_retry(shard, mon)
         return mon.result(out_base)
-    S = judge.lib()
     if shard["kind"] == "merge":
+        judge.lib()
         run_merge(shard, mon)
-    else:
-        run_scenario(shard, mon, S)
+        mon.tally("package_imported_without_overlay")
+        return mon.result(out_base)
+    try:
+        S = judge.lib()
+    except Exception as e:  # noqa: BLE001
+        # the scratch package = the tree's package + overlay files that are valid registry documents: it must
+        # load (finish() keeps this verdict only when the package without overlays did load in this run)
+        import traceback  # noqa: PLC0415
+
+        mon.ev()
+        mon.distinct(("scenario-import", shard.get("scenario")))
+        mon.viol("package_with_valid_overlay_files_cannot_be_imported", {"scenario": shard.get("scenario"), "files": shard.get("files")}, "imports; effective tables = composition of the files",
+                 "".join(traceback.format_exception(type(e), e, e.__traceback__))[-500:])
+        return mon.result(out_base)
+    run_scenario(shard, mon, S)
     return mon.result(out_base)
 
 
 def finish(m, tier, seed):
     want = SIZES[tier]["scenarios"] + 3
+    if not m["tallies"].get("package_imported_without_overlay"):
+        # nothing imported the package at all: an import failure under an overlay says nothing
+        mech = "package_with_valid_overlay_files_cannot_be_imported"
+        if m["viol_count"].pop(mech, None):
+            m["violations"] = [v for v in m["violations"] if v.get("mechanism") != mech]
+            m["inconclusive"].append("the package could not be imported with or without overlay files")
     if m["tallies"].get("scenarios_loaded", 0) < want and not m["viol_count"]:
         m["inconclusive"].append(f"only {m['tallies'].get('scenarios_loaded', 0)} of {want} scenarios loaded")
     return {"scenarios": want}
